@@ -19,7 +19,11 @@ use std::{
     time::{Duration, Instant},
 };
 
-pub const VERIF: &str = "/verif";
+/// Root of the verification tree: `/verif`, or `$GV_ROOT` for isolated copies
+/// (self-test runs against a scratch copy of the repository).
+pub fn verif_root() -> PathBuf {
+    PathBuf::from(std::env::var("GV_ROOT").unwrap_or_else(|_| "/verif".to_string()))
+}
 /// Per-worker cap on stored non-trivial case hashes (distinct_nontrivial is
 /// then a lower bound: cases beyond the cap are not counted as distinct).
 pub const HASH_CAP: usize = 150_000;
@@ -162,7 +166,7 @@ pub struct Finding {
 }
 
 pub fn load_findings() -> Vec<Finding> {
-    let p = Path::new(VERIF).join("known_findings.json");
+    let p = verif_root().join("known_findings.json");
     match std::fs::read_to_string(&p) {
         Ok(s) => {
             let v: Value = serde_json::from_str(&s).unwrap_or(Value::Null);
@@ -492,7 +496,7 @@ fn exe(build: Build) -> PathBuf {
         Build::Normal => std::env::current_exe().expect("current_exe"),
         Build::Asan => PathBuf::from(
             std::env::var("GV_ASAN_EXE").unwrap_or_else(|_| {
-                format!("{VERIF}/work/target-asan/x86_64-unknown-linux-gnu/release/gv")
+                format!("{}/work/target-asan/x86_64-unknown-linux-gnu/release/gv", verif_root().display())
             }),
         ),
     }
@@ -559,7 +563,7 @@ pub struct RunOutcome {
 }
 
 fn violations_dir(id: &str) -> PathBuf {
-    let d = Path::new(VERIF).join("work").join("violations").join(id);
+    let d = verif_root().join("work").join("violations").join(id);
     let _ = std::fs::create_dir_all(&d);
     d
 }
@@ -587,7 +591,7 @@ pub fn run<P: Prop>(tier: Tier) -> i32 {
         .map(|x| x as u64)
         .unwrap_or(0);
     let id = P::ID;
-    let scratch = Path::new(VERIF).join("work").join("run").join(format!(
+    let scratch = verif_root().join("work").join("run").join(format!(
         "{id}-{}-{}",
         tier.name(),
         std::process::id()
@@ -601,7 +605,7 @@ pub fn run<P: Prop>(tier: Tier) -> i32 {
             .unwrap_or(tier.pick(900, 6 * 3600)),
     );
 
-    let _ = std::fs::remove_dir_all(Path::new(VERIF).join("work").join("violations").join(id));
+    let _ = std::fs::remove_dir_all(verif_root().join("work").join("violations").join(id));
     let mut violations: Vec<(PathBuf, String)> = vec![];
     let mut inconclusive: Vec<String> = vec![];
     let mut known_total: BTreeMap<String, u64> = BTreeMap::new();
@@ -615,7 +619,7 @@ pub fn run<P: Prop>(tier: Tier) -> i32 {
 
     // 1. regression tier: every committed replay file first.
     let mut replayed = 0_u64;
-    let rdir = Path::new(VERIF).join("replays").join(id);
+    let rdir = verif_root().join("replays").join(id);
     let mut files: Vec<PathBuf> = std::fs::read_dir(&rdir)
         .map(|d| {
             d.filter_map(|e| e.ok().map(|e| e.path()))
@@ -930,7 +934,7 @@ pub fn run<P: Prop>(tier: Tier) -> i32 {
         "wall_s": wall,
         "violations": violations.len(),
     });
-    let edir = Path::new(VERIF).join("evidence");
+    let edir = verif_root().join("evidence");
     let _ = std::fs::create_dir_all(&edir);
     std::fs::write(
         edir.join(format!("{id}.json")),
